@@ -1,4 +1,5 @@
 (* C09 — the debugger is transparent to the program. *)
+From Coq Require Import List.
 From Lace Require Import Word Machine Isa Vm Asm Dbg DbgProofs.
 From Lace Require Examples.
 From Lace Require DebugText DebugTextProofs DbgStream DbgStreamProofs.
@@ -58,6 +59,16 @@ Theorem C09_one_stream : forall env fuel script d st t e c, s_inp st = nil ->
   DbgStream.ssession env fuel script d st t e c = Some (session env fuel script d st t e c).
 Proof. exact DbgStreamProofs.ssession_no_input. Qed.
 Print Assumptions C09_one_stream.
+
+(** ... and so are they, WHATEVER the console input is, when the script in the `--command` argument
+    ends with `quit` or `exit`: the debugger never reaches the console stream, the program gets all
+    of it.  (These two theorems are what carries every statement about [session] over to the real
+    process; sessions outside both — the argument runs out while console input remains — are
+    described by DbgStream.v itself and compared with the code as DBGS cases.) *)
+Theorem C09_one_stream_stopping : forall env c, DbgStreamProofs.stops c -> forall fuel pre d st t e n,
+  DbgStream.ssession env fuel (pre ++ (c :: nil)) d st t e n = Some (session env fuel (pre ++ (c :: nil)) d st t e n).
+Proof. exact DbgStreamProofs.ssession_stopping_script. Qed.
+Print Assumptions C09_one_stream_stopping.
 
 (** Non-vacuity: a read-only script (step, registers, print, break add, continue, continue) on a
     concrete program: the hypotheses of C09_transparent hold and the session ends like the plain
